@@ -273,3 +273,9 @@ MODEL_SUMMARIES = {
 Caller.summaries = MODEL_SUMMARIES
 
 UNITS = [LJ(), IPL(), Hertz(), Caller()]
+
+
+MANIFEST = {
+    "text": 'For all real r, epsilon, sigma, r_c > 0, exponents n, alpha and prefactor A, both shift settings: the triple returned by each of the three model methods (real AST, re-read every run) equals (ds/dr, ds/dr(r_c)|0, d2s/dr2) of the documented potential, the derivatives being produced by symbolic differentiation of the documented s(r); the selector returns the triple of the requested model (callee contracts, not bodies). Every obligation is an SMT unsat result.',
+    "note": 'floats as reals (A1); symbolic exponents via uninterpreted POW with shift axioms; differentiation rules of pyvc/diff.py trusted; Hertz: documented convention r_c = sigma, alpha > 1, r < sigma as precondition',
+}
